@@ -376,6 +376,11 @@ func c10GenChain(t *rapid.T) hx.World {
 			lay.Inspect[0].ExpMat = append([][]string{{"ALLOW", "unused/./too"}}, lay.Inspect[0].ExpMat...)
 		}
 	}
+	if rapid.IntRange(0, 3).Draw(t, "lowthreshold") == 0 {
+		// a step that asks for no (or a negative number of) links, while its links are there
+		st := &lay.Steps[rapid.IntRange(0, len(lay.Steps)-1).Draw(t, "lowthresholdstep")]
+		st.Threshold = rapid.SampledFrom([]int{0, 0, -1}).Draw(t, "lowthresholdvalue")
+	}
 	if w.Layout.Wrapper == "legacy" && len(w.Layout.Sigs) > 0 && rapid.IntRange(0, 2).Draw(t, "stalesig") == 0 {
 		// the layout was revised and signed again: the owner's outdated signature still stands in front of
 		// the current one (the objects the caller holds keep their signature entries as they are)
@@ -578,6 +583,15 @@ func c10Gen(t *rapid.T) c10Case {
 			// nothing consumes anything: whatever the spellings, a recorded product is still there for DISALLOW *
 			c.Direct.MatRules = [][]string{{"ALLOW", "*"}}
 			c.Direct.ProdRules = [][]string{{"DISALLOW", "*"}}
+		}
+		if rapid.IntRange(0, 3).Draw(t, "twosources") == 0 {
+			// two recorded names that land on ONE artifact of the destination once its prefix is put in front
+			// (a and /a under "build"): both match, whichever the verifier looks at first
+			dg := h("aa")
+			c.Direct.Links["item"] = hx.RLink{Materials: map[string]map[string]string{}, Products: map[string]map[string]string{"a": dg, "/a": dg, "other": h("bb")}}
+			c.Direct.Links["dst"] = hx.RLink{Materials: map[string]map[string]string{}, Products: map[string]map[string]string{"build/a": dg}}
+			c.Direct.MatRules = [][]string{{"ALLOW", "*"}}
+			c.Direct.ProdRules = [][]string{{"MATCH", "*", "WITH", "PRODUCTS", "IN", "build", "FROM", "dst"}, {"ALLOW", rapid.SampledFrom([]string{"a", "/a", "other"}).Draw(t, "allowed")}, {"ALLOW", "other"}, {"DISALLOW", "*"}}
 		}
 		c.Calls = []c10Call{{}}
 		c.Repeats = hx.Pick(12, 32)
